@@ -106,11 +106,33 @@ type State struct {
 	vmOnlyFailure bool
 	fmtDepth int
 	expectBlocked bool
+	autoSched bool
+	inSelect  bool
+	sch       sched
 }
 
 type spawnedCall struct {
-	Fn   Value
-	Args []Value
+	Fn      Value
+	Args    []Value
+	Started bool
+}
+
+// runPending implements the opt-in run-to-completion scheduler (zz.AutoSchedule): when the
+// running goroutine would block, the oldest goroutine not yet started runs to completion
+// (nested), then the blocking operation is retried. One schedule, stated as such.
+func (st *State) runPending() bool {
+	if !st.autoSched {
+		return false
+	}
+	for i := range st.spawned {
+		if !st.spawned[i].Started {
+			st.spawned[i].Started = true
+			sp := st.spawned[i]
+			st.call(sp.Fn, sp.Args, nil)
+			return true
+		}
+	}
+	return false
 }
 
 func (st *State) end(status, detail string) {
@@ -447,7 +469,7 @@ func (st *State) failure(label string, cond []*term.T, detail string) {
 		copy(ins, st.inputs)
 		pre := make([]int32, len(st.record))
 		copy(pre, st.record)
-		f := Failure{Label: label, Known: known, Inputs: ins, Model: m, Detail: detail, Prefix: pre, PCSize: len(st.pc), Approx: st.approx, VMOnly: st.vmOnlyFailure}
+		f := Failure{Label: label, Known: known, Inputs: ins, Model: m, Detail: detail + st.scheduleString(), Prefix: pre, PCSize: len(st.pc), Approx: st.approx, VMOnly: st.vmOnlyFailure}
 		f.PCScript = solver.Script(st.pc, cond)
 		return f
 	}
